@@ -1,6 +1,6 @@
 (* C06 Instant functions, scalars, unary minus and @-pinned parts match the reference.
    Property theorems only; proofs in FuncProofs.v, Grid.v, Compose.v. Partial: see the note. *)
-From Coq Require Import List String ZArith NArith Bool.
+From Coq Require Import List String ZArith NArith Bool Lia.
 From Verif Require Import Base Grid Select Shard Exec Compose Agg Func FuncProofs.
 Import ListNotations.
 
@@ -44,6 +44,36 @@ Theorem C06_literal_every_step : forall c w v,
   List.concat (run c w (PLiteral v)) = map (literal_step v) (grid w).
 Proof. intros. apply (run_covers_grid c w (PLiteral v)); simpl; auto. Qed.
 Print Assumptions C06_literal_every_step.
+
+(* A subexpression pinned by @ (every selector below it carries @, start()/end() resolved): the
+   stepInvariantOperator evaluates it once, on the window [start, start], where a selector with
+   @ a and offset o reads the time a - o, and hands that vector to every step of the window; that
+   is also the reference's value at every step (C01_join_trees covers Trees.JInvariant nodes
+   anywhere in an operator tree; the trees are compared with the real engine on every run,
+   treecases, with @ t, @ start() and @ end() on vector and matrix selectors). *)
+From Verif Require Bin Trees.
+Theorem C06_pinned_subtree_is_evaluated_once : forall cf w t,
+  (0 < c_shards cf)%nat -> (0 < c_batch cf)%nat -> (0 <= c_lookback cf)%Z -> wf_window w -> (Bin.noT < w_start w)%Z ->
+  Trees.jok (Trees.JInvariant t) ->
+  Trees.jrun cf w (Trees.JInvariant t) = inl (map (fun ts => (ts, Trees.jdenote (c_lookback cf) t (w_start w))) (grid w)) /\
+  forall ts, Trees.jdenote (c_lookback cf) (Trees.JInvariant t) ts = Trees.jdenote (c_lookback cf) t (w_start w).
+Proof. exact Trees.jinvariant_evaluated_once. Qed.
+Print Assumptions C06_pinned_subtree_is_evaluated_once.
+
+(* non-vacuity: abs(foo @ 0.95) + bar over three steps *)
+Example C06_pinned_example :
+  let foo := Trees.JLeaf [[(0, 10); (1, 20)]]%N [[mkS 940 (Some (-2)); mkS 990 (Some 7); mkS 1040 (Some 3)]]%Z 0%Z (Some 950%Z) in
+  let inv := Trees.JInvariant (Trees.JMap true (fun v => Some (Z.abs v)) foo) in
+  let bar := Trees.JLeaf [[(0, 11); (1, 20)]]%N [[mkS 990 (Some 10); mkS 1040 (Some 20)]]%Z 0%Z None in
+  let t := Trees.JJoin (Trees.mkJP (fun x y => ((x + y)%Z, true)) (fun _ => 0%Z) false [] [] Bin.OneToOne false true) inv bar in
+  Trees.jok t /\
+  Trees.jrun (mkCfg 2 10 300) (mkW 1000 1100 50) t =
+    inl [(1000, [(0%nat, 12)]); (1050, [(0%nat, 22)]); (1100, [(0%nat, 22)])]%Z.
+Proof.
+  cbv zeta. split; [|vm_compute; reflexivity].
+  unfold Trees.jok. simpl. repeat split; try discriminate; try (repeat constructor; simpl; lia); auto.
+  intros i j Hi Hj _. simpl in Hi, Hj. lia.
+Qed.
 
 (* PARTIAL. timestamp() is a known finding (F02): the full statement is false of
    the pinned engine. Values of the libm functions are not modelled; they are
